@@ -274,6 +274,12 @@ def _subs(tier, prop):
             {'k': 'shutdown', 'dev': 'p1', 't': 't0'}, {'k': 'restore', 'dev': 'p1', 't': 't1'},
             {'k': 'shutdown', 'dev': 'p1', 't': 't2'}, {'k': 'restore', 'dev': 'p1', 't': 't3'}]), mons, zero=['cs', 'c0'],
             pre=['t0 < t1', 't1 < t2', 't2 < t3', 't2 < c1 + (t1 - t0)']))
+        # a failure armed far ahead is frozen together with the cycle timer, twice: after both restores the timer must run again
+        S.append(mk_sub('F6-pending-failure-and-two-interruptions-of-one-part', _faults_basic(1, [
+            {'k': 'armfail', 'dev': 'p1', 't': 0, 'delay': 'd1'},
+            {'k': 'shutdown', 'dev': 'p1', 't': 't0'}, {'k': 'restore', 'dev': 'p1', 't': 't1'},
+            {'k': 'shutdown', 'dev': 'p1', 't': 't2'}, {'k': 'restore', 'dev': 'p1', 't': 't3'}]), mons, zero=['cs', 'c0'],
+            pre=['t0 < t1', 't1 < t2', 't2 < t3', 't2 < c1 + (t1 - t0)', 'd1 > c1 + (t1 - t0) + (t3 - t2)']))
         S.append(mk_sub('F8-source-replenished-mid-cycle', with_ops(serial('', 2), [{'k': 'budget', 'dev': 'src', 't': 't0', 'n': 2}]),
                         mons, zero=['cs'], pre=['2 * c0 < t0', 't0 < 3 * c0']))
         S.append(mk_sub('F8-source-replenished', with_ops(serial('', 2), [{'k': 'budget', 'dev': 'src', 't': 't0', 'n': 2}]), mons, zero=['cs']))
@@ -519,6 +525,10 @@ def _subs(tier, prop):
         S.append(mk_sub('F3-rework-loop-through-value-gates', REWORK, mons))
         S.append(mk_sub('F4-rework-loop-re-entering-a-group', REWORK_GROUP, mons, zero=['c0']))
         S.append(mk_sub('F4-fanout-behind-group-path', GROUP_FANOUT, mons, zero=['cs', 'c0']))
+        gf = copy.deepcopy(GROUP_FANOUT)
+        gf['devices'][0]['parts'] = 3
+        gf['devices'][3]['cycle'] = 'c3'      # the first-connected machine behind the path is the slower one
+        S.append(mk_sub('F4-fanout-behind-group-path-unequal-machines', gf, mons, zero=['cs', 'c0'], pre=['c2 < c3']))
         fanb = {'devices': [{'k': 'source', 'name': 'src', 'cycle': 'c0', 'parts': 2},
                             {'k': 'proc', 'name': 'p1', 'up': ['src'], 'cycle': 'c1'}, {'k': 'proc', 'name': 'p2', 'up': ['src'], 'cycle': 'c1'},
                             {'k': 'sink', 'name': 'snk', 'up': ['p1', 'p2'], 'cycle': 0}], 'idle_longest': ['p1', 'p2'],
